@@ -311,7 +311,11 @@ fn delegate_exception(name: &str) -> Option<&'static str> {
 /// The instruction that hands the authority `right` (as used by `ix`) to a fresh key — "the authority recorded on chain",
 /// not a constant: after the rotation the old key must be refused and the new one accepted.
 fn rotation(w: &World, right: &Pubkey, ix: &Instruction) -> Option<(Instruction, Pubkey)> {
-    let nk = key("c04/rotated_authority");
+    rotation_to(w, right, ix, key("c04/rotated_authority"))
+}
+
+/// The instruction that hands the authority `right` (as used by `ix`) to `nk`.
+fn rotation_to(w: &World, right: &Pubkey, ix: &Instruction, nk: Pubkey) -> Option<(Instruction, Pubkey)> {
     let u = &w.u1;
     let cfg = &w.cfg;
     let has = |k: &Pubkey| ix.accounts.iter().any(|m| m.pubkey == *k);
@@ -652,6 +656,21 @@ fn variants(w: &World, row: &Row) -> Vec<Variant> {
                 push("rotated:old_authority_signed".into(), "rotated_old", vec![Prep::Exec(rot.clone())], happy.clone(), Expect::Fail);
                 push("rotated:new_authority_signed".into(), "rotated_new", vec![Prep::Exec(rot.clone())], act_key(*nk, true, None), Expect::Succeed);
                 push("rotated:new_authority_unsigned".into(), "rotated_old", vec![Prep::Exec(rot.clone())], act_key(*nk, false, None), Expect::Fail);
+            }
+            // authority handed to the all-zero key ("nobody"): the recorded authority is then a key nobody can sign with, so every
+            // signer must be refused. (The initialize-pool authority is the documented exception: all-zero there means
+            // permission-less pool creation, which is not a settings change — not enumerated.)
+            if row.right[0] != w.ipa {
+                if let Some((rot, _)) = rotation_to(w, &row.right[0], happy, Pubkey::default()) {
+                    push("revoked_to_zero_key:old_authority_signed".into(), "revoked", vec![Prep::Exec(rot.clone())], happy.clone(), Expect::Fail);
+                    for (rname, k) in &w.roles {
+                        if row.right.contains(k) {
+                            continue;
+                        }
+                        let wallet = if *k == w.attacker.key { Some(&w.attacker) } else { None };
+                        push(format!("revoked_to_zero_key:{rname}_signed"), "revoked", vec![Prep::Exec(rot.clone())], act_key(*k, true, wallet), Expect::Fail);
+                    }
+                }
             }
         }
         Kind::Position(p) => {
